@@ -326,11 +326,17 @@ func handleReplayerPanic(replay *Replayer, errp *error) { //nolint:gocritic // i
 func (j *Joe) init() {
 	j.initDone.Do(func() {
 		j.message = make(chan publishedMessage)
+		verifHook("init.step", 1, nil)
 		j.subscription = make(chan subscription)
+		verifHook("init.step", 2, nil)
 		j.unsubscription = make(chan subscriber)
+		verifHook("init.step", 3, nil)
 		j.done = make(chan struct{})
+		verifHook("init.step", 4, nil)
 		j.closed = make(chan struct{})
+		verifHook("init.step", 5, nil)
 		j.subscribers = map[subscriber]Subscription{}
+		verifHook("init.step", 6, nil)
 
 		replay := j.Replayer
 		if replay == nil {
